@@ -386,6 +386,19 @@ func adjacencyFamily() []*Ast {
 		cat(rep(grp(&Ast{Kind: AClass, Items: []ClassItem{{Short: 'w'}}}), 0, 1, true), &Ast{Kind: ACondRef, Ref: 1, Kids: []*Ast{lit('!'), lit('?')}}),
 		cat(wideCap(), &Ast{Kind: ABackref, Ref: 1}, lit('b')),
 	)
+	// a loop that can take a newline in front of an end anchor, under Multiline and without: only \z is indifferent to
+	// what the loop gives back
+	spc := func() *Ast { return &Ast{Kind: AClass, Items: []ClassItem{{Short: 's'}}} }
+	notA := func() *Ast { return &Ast{Kind: AClass, Neg: true, Items: []ClassItem{{Lo: 'a', Hi: 'b'}}} } // (a SET loop: [^a] alone is a different node kind)
+	for _, an := range []string{"$", `\Z`, `\z`} {
+		for _, mk := range []func() *Ast{spc, notA} {
+			a := func() *Ast { return &Ast{Kind: AAnchor, Name: an} }
+			out = append(out,
+				bareOpt("m", "", cat(rep(mk(), 1, -1, false), a())), cat(rep(mk(), 1, -1, false), a()),
+				bareOpt("m", "", cat(lit('a'), rep(mk(), 0, -1, false), a())), bareOpt("m", "", cat(grp(rep(mk(), 1, -1, true)), a())),
+			)
+		}
+	}
 	// a group that can be empty, then an OPTIONAL group that starts with a backreference to it: the first characters of a
 	// match include whatever follows the backreference (and nothing can be said when the reference may stand for any text)
 	nc2 := func(a *Ast) *Ast { return &Ast{Kind: ANonCap, Kids: []*Ast{a}} }
